@@ -368,6 +368,9 @@ func runC04(r *mc.Report, e *Env) {
 			runC04Conc(r, e, t)
 		}
 	}
+	if freeRuns > 0 { // race-detector pass: only the concurrent scenarios
+		return
+	}
 	if e.Of > 1 && e.Shard >= base {
 		return
 	}
